@@ -3,6 +3,19 @@ import PortusModel.Props.C03
 import PortusModel.Props.C10
 import PortusModel.Props.C13
 import PortusModel.Props.C14
+import PortusModel.Props.C01Sim
+#print axioms Portus.C01.compiled_run_correct
+#print axioms Portus.C01.check_accepts_compiled
+#print axioms Portus.C01.exSrc_inTheorem
+#print axioms Portus.Lang.Frag.compile_refines_lower
+#print axioms Portus.Lang.Frag.rhoOk_of_compile
+#print axioms Portus.Lang.Frag.defsFor_of_compile
+#print axioms Portus.Lang.Frag.lowerE_correct
+#print axioms Portus.Lang.Frag.lowerStmt_correct
+#print axioms Portus.Lang.Frag.lowerEvents_correct
+#print axioms Portus.Lang.Frag.invoke_correct
+#print axioms Portus.Lang.Frag.lower_run_correct
+#print axioms Portus.Lang.Frag.switch_sim
 #print axioms Portus.C03.bin_wf
 #print axioms Portus.C13.compile_scope_slots
 #print axioms Portus.C13.instrs_use_scope
